@@ -239,6 +239,10 @@ def rule_space(ctx, prop):
                         if any(x.endswith("format_function_args") for x in recv) and \
                                 any(r[0] == "agg" and r[1].endswith("FormatTriviaType::Append") for r in triv):
                             applied = True
+                # path-sensitive: the appended vector carries the call trivia only if create_function_call_trivia ran on
+                # this very path (a helper that returns an empty vector for some *input* argument kinds is inlined here)
+                if applied and not any(cc == "context::create_function_call_trivia" for b, cc, t in st.calls):
+                    applied = False
                 if applied:
                     continue
                 justified = False
